@@ -20,6 +20,7 @@
 #include <sstream>
 #include <stdexcept>
 #include <string>
+#include <type_traits>
 #include <vector>
 #include <sanitizer/asan_interface.h>
 #include "rkcommon/utility/AbstractArray.h"
@@ -30,6 +31,15 @@
 #include "rkcommon/utility/OwnedArray.h"
 
 using namespace rkcommon::utility;
+
+// FixedArray<T>::View is the byte view whatever T is (used by networking/DataStreaming with T = uint8_t)
+static_assert(std::is_same<FixedArray<uint8_t>::View, FixedArrayView<uint8_t>>::value &&
+                  std::is_same<FixedArray<int>::View, FixedArrayView<uint8_t>>::value,
+              "FixedArray<T>::View");
+static_assert(std::has_virtual_destructor<AbstractArray<int>>::value && std::has_virtual_destructor<OwnedArray<int>>::value &&
+                  std::has_virtual_destructor<FixedArray<int>>::value && std::has_virtual_destructor<FixedArrayView<int>>::value &&
+                  std::has_virtual_destructor<ArrayView<int>>::value,
+              "wrappers are destroyed through AbstractArray<T>*");
 
 struct E24
 {
@@ -191,11 +201,12 @@ struct Slot
   }
   void destroy()
   {
+    // destruction goes through AbstractArray's VIRTUAL destructor (a non-virtual one is a new-delete-type-mismatch
+    // under ASan, and would leak the owned storage); a FixedArray lives in its shared_ptr control block
+    AbstractArray<T> *b = base();
     switch (kind) {
-    case 'V': delete v; break;
-    case 'O': delete o; break;
+    case 'V': case 'O': case 'W': delete b; break;
     case 'F': f.reset(); break;
-    case 'W': delete w; break;
     }
     kind = 0; v = nullptr; o = nullptr; w = nullptr; vk = -1;
   }
@@ -382,7 +393,7 @@ struct Machine
       Slot<T> &s = sl[i];
       s.kind = kd;
       switch (kd) {
-      case 'V': s.v = new ArrayView<T>(p, n); s.vk = vk; s.vgen = vk >= 0 ? src[vk].gen : 0; break;
+      case 'V': s.v = new ArrayView<T>(make_ArrayView(p, n)); s.vk = vk; s.vgen = vk >= 0 ? src[vk].gen : 0; break;   // the namespace-level factory
       case 'O': s.o = new OwnedArray<T>(p, n); break;
       case 'F': s.f = std::make_shared<FixedArray<T>>(p, n); break;
       }
@@ -525,9 +536,15 @@ struct __attribute__((packed)) P7 { uint8_t x[7]; };
 template <typename T>
 static std::string runD(size_t off, size_t stride, const std::vector<long> &bytes, const std::vector<long> &idxs)
 {
-  // exact-size heap buffer: one byte too far is an ASan report
-  std::unique_ptr<unsigned char[]> buf(new unsigned char[bytes.size() ? bytes.size() : 1]);
-  for (size_t i = 0; i < bytes.size(); ++i) buf[i] = (unsigned char)bytes[i];
+  // exact-size storage: one byte too far is an ASan report.  What the DataView wraps varies with the case: a raw
+  // new[] block, a std::vector's storage, an OwnedArray<uint8_t>'s storage (all 16-byte aligned heap blocks)
+  std::unique_ptr<unsigned char[]> raw(new unsigned char[bytes.size() ? bytes.size() : 1]);
+  for (size_t i = 0; i < bytes.size(); ++i) raw[i] = (unsigned char)bytes[i];
+  std::vector<unsigned char> vec;
+  OwnedArray<unsigned char> own;
+  struct { unsigned char *p; unsigned char *get() const { return p; } } buf{raw.get()};
+  if (bytes.size() % 3 == 1) { vec.assign(raw.get(), raw.get() + bytes.size()); vec.shrink_to_fit(); buf.p = vec.data(); }
+  else if (bytes.size() % 3 == 2) { own.reset(raw.get(), bytes.size()); buf.p = own.data(); }
   std::ostringstream o;
   if (off > bytes.size()) return "badcase";
   if (off % alignof(T) || stride % alignof(T)) return "misaligned";
